@@ -196,3 +196,32 @@ Definition c05_sorted_decomp (dec : c05_decomp) : c05_decomp := map (fun st => (
 Definition c05_dec_ifs (two ign : bool) (src dst : c05_flagset) (dec : c05_decomp) (p : nat) : c05_imap :=
   c05_iface_def src dst (c05_remote_of two ign (c05_sorted_decomp dec) p).
 
+
+(* ------------------------------------------------------------------ round 6: which communicator an object carries
+   Interface::communicator() after a history of operations on an object constructed with communicator comm0 is the
+   communicator of the RemoteIndices of the LAST build() (comm0 if there was none); earlier builds, the constructor
+   argument, free() and strip() are irrelevant. *)
+Fixpoint c05_spec_last_comm (comm0 : c05_mpicomm) (h : list c05_icop) : c05_mpicomm :=
+  match h with
+  | [] => comm0
+  | C05_ICBuild _ _ _ ricomm :: t => c05_spec_last_comm ricomm t
+  | _ :: t => c05_spec_last_comm comm0 t
+  end.
+(* the history with the communicators forgotten (the object of C05_interface_history) *)
+Definition c05_icop_forget (op : c05_icop) : c05_iop :=
+  match op with C05_ICBuild s d rm _ => C05_IBuild s d rm | C05_ICFree => C05_IFree | C05_ICStrip => C05_IStrip end.
+Definition c05_bcop_forget (op : c05_bcop) : c05_bop :=
+  match op with C05_BCBuild szs szd i => C05_BBuild szs szd (c05_ic_map i) | C05_BCFree => C05_BFree | C05_BCCommunicate => C05_BCommunicate end.
+
+(* per rank: everything that happened to the Interface and the BufferedCommunicator object of that rank before the
+   build() calls that count, and the inputs of those *)
+Record c05_rank_hist := {
+  c05_rh_comm0 : c05_mpicomm;              (* constructor argument of the Interface *)
+  c05_rh_ihist : list c05_icop;            (* earlier life of the Interface object (other remote indices, other communicators) *)
+  c05_rh_bhist : list c05_bcop;            (* earlier life of the BufferedCommunicator object *)
+  c05_rh_szs : nat -> nat; c05_rh_szd : nat -> nat;
+  c05_rh_rm : c05_rmap }.
+Definition c05_rh_interface (built : list nat) (src dst : c05_flagset) (r : c05_rank_hist) : c05_icobj :=
+  c05_icobj_run (c05_rh_comm0 r) (c05_rh_ihist r ++ [C05_ICFree; C05_ICBuild src dst (c05_rh_rm r) (Some built)]).
+Definition c05_rh_communicator (built : list nat) (src dst : c05_flagset) (n : nat) (r : c05_rank_hist) : c05_bcobj :=
+  c05_bcobj_run (c05_rh_bhist r ++ C05_BCBuild (c05_rh_szs r) (c05_rh_szd r) (c05_rh_interface built src dst r) :: repeat C05_BCCommunicate n).
